@@ -81,6 +81,36 @@ def make_inh_trace(job):
     return {"hdr": hdr, "ev": evs}
 
 
+def make_dyn_trace(job):
+    """Worker: dynamic-space world (C07)."""
+    from .gen_dyn import GenDyn
+    from .world import World
+    seed, profile, nops, opts = job
+    g = GenDyn(seed, profile, **opts.get("gen", {}))
+    defs = g.program()
+    w = World(defs, track_handles=True)
+    try:
+        hdr = {"init": defs, "pdefs": w.project_defs(), "seed": seed, "profile": profile,
+               "recalc": False, "checkdefs": False, "world": "dyn"}
+        evs = []
+        for _ in range(nops):
+            op = g.next_op()
+            ev = w.apply(op, deep=True)
+            g.update(op, ev["res"], ev)
+            evs.append(ev)
+        # final sweep over instances that exist
+        for sp in list(w.all_spaces()):
+            p, st = w.enc_space(sp)
+            if st:
+                for c in list(sp.cells):
+                    for args in _all_args(g, c)[:2]:
+                        evs.append(w.apply({"op": "call", "c": [p, st, c], "args": args, "sp": "pos"},
+                                           deep=False))
+    finally:
+        w.close()
+    return {"hdr": hdr, "ev": evs}
+
+
 def _all_args(g, c):
     ps = g.sigs[c]
     if not ps:
